@@ -113,6 +113,8 @@ mod time_cache;
 mod topic;
 mod transform;
 mod types;
+#[cfg(libp2p_verif)]
+pub mod verif;
 
 #[cfg(feature = "metrics")]
 pub use metrics::Config as MetricsConfig;
